@@ -215,6 +215,16 @@ def record(run):
                     from enspara.cluster import util
                     a, d = util.assign_to_nearest_center(X, X[run["init"]], util._get_distance_method(m))
                     kw.update(assignments=watch("assignments", a), distances=watch("distances", d))
+                elif run.get("warm") == "pairs":
+                    # centers as (trajectory, frame) pairs of a data set cut into two trajectories, in the caller's
+                    # order, together with the labels and distances of exactly that state
+                    from enspara.cluster import util
+                    cutp = max(1, n // 2)
+                    lens = [cutp, n - cutp] if n > cutp else [n]
+                    pairs = [(0, i) if i < cutp else (1, i - cutp) for i in run["init"]]
+                    a, d = util.assign_to_nearest_center(X, X[run["init"]], util._get_distance_method(m))
+                    kw.update(cluster_center_inds=watch("cluster_center_inds", pairs), X_lengths=lens,
+                              assignments=watch("assignments", a), distances=watch("distances", d))
                 else:
                     kw.update(cluster_center_inds=watch("cluster_center_inds", list(run["init"])))
             else:
